@@ -79,6 +79,36 @@ def PC.isSub : PC → Bool
   | .putAcq _ _ _ | .putDo _ _ _ | .putRel _ _ _ | .relFound _ | .relNotFound _ | .fallback _ => true
   | _ => false
 
+/-! ### structure -/
+
+/-- every queue index a code position refers to is below `n` (the number of queue objects created so far) -/
+def PC.valid (n : Nat) : PC → Prop
+  | .iter _ todo => ∀ q ∈ todo, q < n
+  | .asking _ q todo | .asked _ q todo _ => q < n ∧ ∀ q' ∈ todo, q' < n
+  | .putAcq _ q _ | .putDo _ q _ | .putRel _ q _ => q < n
+  | .nlRead q _ | .nlAppend q _ | .nlRel q _ => q < n
+  | .clSetActive q => q < n
+  | .srcWant q _ | .srcHold q _ | .srcAdded q => q < n
+  | _ => True
+
+/-- the snapshot `reversed(self._event_queues)` a submitter iterates over is still the truth: the levels
+already asked followed by those still to ask are exactly the current levels, innermost first; a level
+found under the main lock is still a level -/
+def PC.snapOK (lv : List Nat) : PC → Prop
+  | .iter _ todo => ∃ asked, lv.reverse = asked ++ todo
+  | .asking _ q todo | .asked _ q todo _ => ∃ asked, lv.reverse = asked ++ q :: todo
+  | .putAcq _ q f | .putDo _ q f | .putRel _ q f => f = true → q ∈ lv
+  | _ => True
+
+/-- what `_active_queue` is, by the code position of the loop thread: the queue just created by
+`execute_new_loop` and not yet appended; the level just popped by `close_loop` (until the write of the new
+top); otherwise the top level (or anything once the last level has been popped) -/
+def PC.activeOK (lv : List Nat) (act : Nat) : PC → Prop
+  | .nlRead q _ | .nlAppend q _ => act = q ∧ q ∉ lv
+  | .clPopped => act ∉ lv
+  | .clSetActive q => lv.getLast? = some q ∧ act ∉ lv
+  | _ => lv.getLast? = some act ∨ lv = []
+
 /-! ### where a signal id can be -/
 
 /-- the id a thread at this code position still has in its hands (submitted, not yet put into a queue) -/
